@@ -14,3 +14,12 @@ func init() {
 		TrustedBase: []string{"SMT-LIB string theory as the model of Go strings (byte sequences)", "extern contracts strings.Index (spec/extern.gvc)"},
 		NotDecided:  []string{"escape decoding in the lexer (lexValue) is covered by C08/C18 contracts, not here"}})
 }
+
+func init() {
+	registerProp(&PropSpec{ID: "C11", Title: "Concurrent sink invocations are isolated; failures go to their own event", MinObls: 40, Extra: c11Extra, Replay: c11Replay,
+		Classes:     regexp.MustCompile(`^(lock|own|inv|pre|post|frame|assert)`),
+		TrustedBase: []string{"native model of sync.Mutex / sync.RWMutex (ghost lock set G_held / G_rheld per thread; acquiring a lock havocs everything that is not immutable, private or declared stable)"},
+		Assumptions: []string{"soundness of lock-invariant reasoning (Owicki-Gries with locks): data that is only accessed with its declared lock held behaves sequentially inside the critical section",
+			"callees leave the lock set as they found it (checked as lock:balance for every function under contract)"},
+		NotDecided: []string{"races inside dependency objects (RingBuffer, loggers)", "isolation of user-level globals (sinks that write global variables share them by design)"}})
+}
